@@ -4,6 +4,7 @@ from . import gen_tables
 from . import gen_shape
 from . import gen_const
 from . import gen_units
+from . import gen_l2flow
 
 GENERATORS = {
     "GenPath": gen_path.generate,
@@ -12,4 +13,9 @@ GENERATORS = {
     "GenShape": gen_shape.generate,
     "GenConst": gen_const.generate,
     "GenUnits": gen_units.generate,
+    "GenL2Flow": gen_l2flow.generate,
 }
+from . import gen_loop; GENERATORS["GenLoop"] = gen_loop.generate
+from . import gen_wraptol; GENERATORS["GenWrapTol"] = gen_wraptol.generate
+from . import gen_batch; GENERATORS["GenBatch"] = gen_batch.generate
+from . import gen_cuboid; GENERATORS["GenCuboid"] = gen_cuboid.generate
